@@ -13,7 +13,7 @@ RULE = ("seeded gen_coords runs with residue types of 1-4 atoms (+ virtual site;
         "atoms; distinct = distinct event-log digests")
 ASSUMPTIONS = wa.ASSUMPTIONS
 REAL_VS_STUB = wa.REAL_VS_STUB
-PROBES = wa.PROBES + ["earlier_call_same_topology_paths", "centres_supplied"]
+PROBES = wa.PROBES + ["user_template", "alias_templates", "list_order", "earlier_call_same_topology_paths", "centres_supplied"]
 PROFILE = {"max_atoms": 4, "p_bf": 0.7, "faults": ["orient", "orient", "step", "opt"], "n_restypes": (1, 3),
            "box_modes": ["cubic", "noncubic", "density"]}
 
@@ -29,15 +29,35 @@ def gen_job(verif_seed, tier, index):
         from simkit.core import draw_lane
         from gen import topgen
         job["tape"]["orient"] = draw_lane(st.tape, 3 * topgen.n_residues(job["spec"]) + 5, 0.7, False, maxval=7)
-    if g.random() < 0.25:
+    r = g.random()
+    if r < 0.25:
         jobgen.add_coordinates(job, g, {"coord_modes": ["meta_full", "meta_prefix", "prefix"]})
+    elif r < 0.45:
+        # templates from a build file, also for two residue names that share one labelled graph
+        if g.random() < 0.5:
+            pair = jobgen.add_alias_restype(job, g)
+            if pair:
+                job["alias_pair"] = list(pair)
+        jobgen.add_user_templates(job, g)
+    elif r < 0.55:
+        jobgen.add_list_order(job, g)
     if job.get("coord_text") is None and not job.get("bld_volumes") and g.random() < 0.12:
         jobgen.add_pre_variant(job, g, g.choice(["other_geometry", "other_graph"]))
     return job
 
 
+def _nt(j, r):
+    if j.get("user_templates"):
+        r["probes"]["user_template"] = 1
+    if j.get("alias_pair"):
+        r["probes"]["alias_templates"] = 1
+    if j.get("list_order"):
+        r["probes"]["list_order"] = 1
+    return bool(r["probes"].get("backmapped_multi_atom_residue"))
+
+
 def run_job(job):
-    return wa.run_and_tag(job, lambda j, r: bool(r["probes"].get("backmapped_multi_atom_residue")))
+    return wa.run_and_tag(job, _nt)
 
 
 reductions = jobgen.reductions
